@@ -11,7 +11,8 @@ item list satisfying the decidable predicate `Clean d` the tokenizer — regular
 matcher, hyphen detection, line counting — reads the spelling back as exactly these tokens
 (`scan_spell`, by induction over the matcher). Hence the token lists under two delimiter sets are
 equal up to the `source` field of tags and objects, and (the block parser and the compiler do not
-read that field outside raw blocks) the compiled templates are EQUAL.
+read that field; a raw block keeps the sources of its tokens, which since the repair
+`fixes/raw-comment-lexical` are one text token of literal bytes) the compiled templates are EQUAL.
 
 `Clean d items` (Proofs/E2ESpell.lean) says, in the words of `harness/tokitems.go`:
 * texts are non-empty, not adjacent, and no opening delimiter begins inside a text (not even one
@@ -22,6 +23,9 @@ read that field outside raw blocks) the compiled templates are EQUAL.
   begin with white space, do not end with white space or `-`, and do not end in a non-empty prefix of
   the tag-right delimiter;
 * the closing delimiter does not occur between the arguments and its own position;
+* after a tag named `raw` or `comment` a text item is the block's BODY: any bytes (delimiters included) in which
+  no end tag of the block begins, followed by the end tag — or there is no end tag ahead at all and the items
+  are read as usual;
 * a tag WITHOUT arguments has at most one white-space byte before its closing delimiter, and none
   before a right hyphen — see the two `example`s at the end: the pattern of `formTokenMatcher`
   reads `{% else  %}` as a tag with arguments `" "` and `{% else -%}` as a tag with arguments `"-"`
@@ -58,19 +62,20 @@ example : (scan [[60, 60], [62, 62], [91], [93]] (spell exDelims exItems) 1).map
   tokens_equal_up_to_source [[60, 60], [62, 62], [91], [93]] [] exItems 1 (by decide) (by decide) (by decide) (by decide)
 
 /-- **C19, main theorem (custom delimiters are equivalent to the defaults, hyphens included).** For every
-    template (item list) without a tag named `raw`, clean for both delimiter sets: compiling the custom
+    template (item list) clean for both delimiter sets, whose raw blocks are closed (`RawClosed`: a `raw` tag
+    is followed, at once or after ONE text item — the body, arbitrary bytes —, by an `endraw` tag): compiling the custom
     spelling with the custom delimiters and compiling the other spelling with the other delimiters (in
     particular the defaults) give the SAME result — the same compiled tree, or the same located error. -/
 theorem spellings_compile_equal (delims delims' : List Bytes) (items : List Item) (line : Nat)
     (hg : GoodDelims (Delims.ofList delims)) (hc : Clean (Delims.ofList delims) items)
     (hg' : GoodDelims (Delims.ofList delims')) (hc' : Clean (Delims.ofList delims') items)
-    (hnr : NoRawTag items) :
+    (hnr : RawClosed items) :
     compileSource delims (spell (Delims.ofList delims) items) line =
       compileSource delims' (spell (Delims.ofList delims') items) line := by
   rw [compileSource_eq_compileTokens, compileSource_eq_compileTokens]
   refine compileTokens_congr _ _ (tokens_equal_up_to_source delims delims' items line hg hc hg' hc') ?_ ?_
-  · rw [scan_spell delims items line hg hc]; exact tokensOf_noRaw _ items line hnr
-  · rw [scan_spell delims' items line hg' hc']; exact tokensOf_noRaw _ items line hnr
+  · rw [scan_spell delims items line hg hc]; exact tokensOf_rawSafe _ _ items line (Nat.le_refl _) hnr
+  · rw [scan_spell delims' items line hg' hc']; exact tokensOf_rawSafe _ _ items line (Nat.le_refl _) hnr
 
 /-- **C19 on `run`.** An engine configured with custom delimiters, run on the custom spelling, returns
     what the same engine returns for the template compiled from the default spelling with the default
@@ -80,7 +85,7 @@ theorem spellings_compile_equal (delims delims' : List Bytes) (items : List Item
 theorem run_custom_spelling_eq_default (P : Prims) (O : OutPrims) (cfg : Cfg) (fs : FS) (fuel : Nat) (items : List Item)
     (line : Nat) (env : Env)
     (hg : GoodDelims (Delims.ofList cfg.delims)) (hc : Clean (Delims.ofList cfg.delims) items)
-    (hc' : Clean Delims.default items) (hnr : NoRawTag items) :
+    (hc' : Clean Delims.default items) (hnr : RawClosed items) :
     run P O cfg fs fuel (spell (Delims.ofList cfg.delims) items) line env =
       runCompiled P O cfg fs fuel (compileSource [] (spell Delims.default items) line) env := by
   rw [run_eq_runCompiled, spellings_compile_equal cfg.delims [] items line hg hc (by decide) hc' hnr]
@@ -90,34 +95,47 @@ example : compileSource [[60, 60], [62, 62], [91], [93]] (spell exDelims exItems
     compileSource [] (spell Delims.default exItems) 1 :=
   spellings_compile_equal [[60, 60], [62, 62], [91], [93]] [] exItems 1 (by decide) (by decide) (by decide) (by decide) (by decide)
 
-/-! ## The side conditions are needed
+/-! ## Raw blocks
 
-**raw blocks.** The body of a raw block is emitted as its token *sources*, so a raw block that contains
-an object or tag renders to the delimiters as spelled: `{% raw %}{{ x }}{% endraw %}` renders to
-`{{ x }}`, `[ raw ]<< x >>[ endraw ]` to `<< x >>`. The equivalence cannot hold there (and is not
-claimed); for raw blocks whose bodies are texts only it holds but is not proved here. -/
-def exRawItems : List Item := [.tag rawName [] false false [32] [] [32], .obj [120] false false [32] [32],
+Since the repair of the tokenizer (raw and comment are lexical) the body of a raw block is ONE text token: in the
+item model it is a text item of arbitrary bytes, the same bytes under every delimiter set (it is literal text, not
+something that is re-spelled), and the equivalence covers it: `p[ raw ]{{ x }} << y >> {% b[ endraw ]` and
+`p{% raw %}{{ x }} << y >> {% b{% endraw %}` compile to the same tree. What the theorem still excludes
+(`RawClosed`): a `raw` tag without its end tag followed by a tag named `endraw` that carries arguments (the
+tokenizer does not take that for the end tag, the block parser does), where the parser collects the token
+sources as spelled. -/
+def exRawItems : List Item := [.text [112], .tag rawName [] false false [32] [] [32],
+  .text [123, 123, 32, 120, 32, 125, 125, 32, 60, 60, 32, 121, 32, 62, 62, 32, 123, 37, 32, 98],
   .tag endrawName [] false false [32] [] [32]]
 
-example : GoodDelims exDelims ∧ Clean exDelims exRawItems ∧ Clean Delims.default exRawItems ∧ ¬ NoRawTag exRawItems := by decide
-example : runTokens stdPrims stdOut {} (fsOfList []) 1 (scan [[60, 60], [62, 62], [91], [93]] (spell exDelims exRawItems) 1) []
+example : GoodDelims exDelims ∧ Clean exDelims exRawItems ∧ Clean Delims.default exRawItems ∧ RawClosed exRawItems := by decide
+example : compileSource [[60, 60], [62, 62], [91], [93]] (spell exDelims exRawItems) 1 =
+    compileSource [] (spell Delims.default exRawItems) 1 :=
+  spellings_compile_equal [[60, 60], [62, 62], [91], [93]] [] exRawItems 1 (by decide) (by decide) (by decide) (by decide) (by decide)
+
+/-- the excluded shape: `{% raw %}{{ x }}{% endraw y %}` — no lexical end tag, the parser ends the block at the tag
+    named `endraw` and the raw body is the object's source as spelled -/
+def exRawOpen : List Item := [.tag rawName [] false false [32] [] [32], .obj [120] false false [32] [32],
+  .tag endrawName [121] false false [32] [32] [32]]
+example : Clean exDelims exRawOpen ∧ Clean Delims.default exRawOpen ∧ ¬ RawClosed exRawOpen := by decide
+example : runTokens stdPrims stdOut {} (fsOfList []) 1 (scan [[60, 60], [62, 62], [91], [93]] (spell exDelims exRawOpen) 1) []
     = .ok [60, 60, 32, 120, 32, 62, 62] := by
-  have h : scan [[60, 60], [62, 62], [91], [93]] (spell exDelims exRawItems) 1 = tokensOf exDelims exRawItems 1 :=
-    scan_spell [[60, 60], [62, 62], [91], [93]] exRawItems 1 (by decide) (by decide)
-  have e : tokensOf exDelims exRawItems 1 =
+  have h : scan [[60, 60], [62, 62], [91], [93]] (spell exDelims exRawOpen) 1 = tokensOf exDelims exRawOpen 1 :=
+    scan_spell [[60, 60], [62, 62], [91], [93]] exRawOpen 1 (by decide) (by decide)
+  have e : tokensOf exDelims exRawOpen 1 =
       { ty := .tag, line := 1, name := rawName, source := [91, 32, 114, 97, 119, 32, 93] } ::
       ([{ ty := .obj, line := 1, args := [120], source := [60, 60, 32, 120, 32, 62, 62] }] ++
-       [{ ty := .tag, line := 1, name := endrawName, source := [91, 32, 101, 110, 100, 114, 97, 119, 32, 93] }]) := by decide
+       [{ ty := .tag, line := 1, name := endrawName, args := [121], source := [91, 32, 101, 110, 100, 114, 97, 119, 32, 121, 32, 93] }]) := by decide
   rw [h, e]
   exact raw_block_renders_body_sources _ _ _ _ _ _ _ _ _ ⟨rfl, rfl⟩ ⟨rfl, rfl⟩ (by decide) (by rfl)
-example : runTokens stdPrims stdOut {} (fsOfList []) 1 (scan [] (spell Delims.default exRawItems) 1) []
+example : runTokens stdPrims stdOut {} (fsOfList []) 1 (scan [] (spell Delims.default exRawOpen) 1) []
     = .ok [123, 123, 32, 120, 32, 125, 125] := by
-  have h : scan [] (spell Delims.default exRawItems) 1 = tokensOf Delims.default exRawItems 1 :=
-    scan_spell [] exRawItems 1 (by decide) (by decide)
-  have e : tokensOf Delims.default exRawItems 1 =
+  have h : scan [] (spell Delims.default exRawOpen) 1 = tokensOf Delims.default exRawOpen 1 :=
+    scan_spell [] exRawOpen 1 (by decide) (by decide)
+  have e : tokensOf Delims.default exRawOpen 1 =
       { ty := .tag, line := 1, name := rawName, source := [123, 37, 32, 114, 97, 119, 32, 37, 125] } ::
       ([{ ty := .obj, line := 1, args := [120], source := [123, 123, 32, 120, 32, 125, 125] }] ++
-       [{ ty := .tag, line := 1, name := endrawName, source := [123, 37, 32, 101, 110, 100, 114, 97, 119, 32, 37, 125] }]) := by decide
+       [{ ty := .tag, line := 1, name := endrawName, args := [121], source := [123, 37, 32, 101, 110, 100, 114, 97, 119, 32, 121, 32, 37, 125] }]) := by decide
   rw [h, e]
   exact raw_block_renders_body_sources _ _ _ _ _ _ _ _ _ ⟨rfl, rfl⟩ ⟨rfl, rfl⟩ (by decide) (by rfl)
 
